@@ -95,5 +95,62 @@ Definition CFDivisor_set_fire (self_graph_graph : dictD) (self_degrees : dictZ) 
   PyOk self_degrees end end end) (set_order firing_set_vertices) (PyOk self_degrees) with PyExn e_ => PyExn e_ | PyOk self_degrees =>
   PyOk self_degrees end end.
 
+(* chipfiring/CFDivisor.py :: CFDivisor.__init__   reads [], writes ['self_degrees', 'self_total_degree'], may raise *)
+Definition CFDivisor___init__ (set_order : list nat -> list nat) (graph_vertices : list nat) (graph_graph : dictD) (degrees : (list (nat * Z))) : pyres (dictZ * Z) (dictZ * Z) :=
+  let self_degrees := (fold_left (fun d_ v => d_set v 0 d_) (set_order graph_vertices) []) in
+  let self_total_degree := 0 in
+  let vertex_names := (map (fun '(name, _) => name) degrees) in
+  if (negb (nodupb vertex_names)) then
+  PyExn (self_degrees, self_total_degree)
+  else
+  match fold_left (fun acc_ kv_ => match acc_ with PyExn e_ => PyExn e_ | PyOk (self_degrees, self_total_degree) => let '(vertex_name, degree) := kv_ in
+  let vertex := vertex_name in
+  if (negb (d_mem vertex graph_graph)) then
+  PyExn (self_degrees, self_total_degree)
+  else
+  let self_degrees := d_set vertex degree self_degrees in
+  let self_total_degree := (self_total_degree + degree) in
+  PyOk (self_degrees, self_total_degree) end) degrees (PyOk (self_degrees, self_total_degree)) with PyExn e_ => PyExn e_ | PyOk (self_degrees, self_total_degree) =>
+  PyOk (self_degrees, self_total_degree) end.
+
+(* chipfiring/CFDivisor.py :: CFDivisor.__neg__   reads ['self_degrees', 'self_graph_vertices', 'self_graph_graph'], writes [], may raise *)
+Definition CFDivisor___neg__ (self_degrees : dictZ) (self_graph_vertices : list nat) (self_graph_graph : dictD) (set_order : list nat -> list nat) : pyres (unit) (dictZ * Z) :=
+  let neg_degrees := (map (fun '(v, deg) => (v, (- deg))) self_degrees) in
+  match CFDivisor___init__ set_order self_graph_vertices self_graph_graph neg_degrees with PyExn _ => PyExn tt | PyOk new_ => PyOk (new_) end.
+
+(* chipfiring/CFDivisor.py :: CFDivisor.__rmul__   reads ['self_degrees', 'self_graph_vertices', 'self_graph_graph'], writes [], may raise *)
+Definition CFDivisor___rmul__ (self_degrees : dictZ) (self_graph_vertices : list nat) (self_graph_graph : dictD) (set_order : list nat -> list nat) (n : Z) : pyres (unit) (dictZ * Z) :=
+  if (negb true) then
+  PyExn tt
+  else
+  let new_degrees := (map (fun '(v, deg) => (v, (n * deg))) self_degrees) in
+  match CFDivisor___init__ set_order self_graph_vertices self_graph_graph new_degrees with PyExn _ => PyExn tt | PyOk new_ => PyOk (new_) end.
+
+(* chipfiring/CFDivisor.py :: CFDivisor.__add__   reads ['self_graph_vertices', 'self_degrees', 'self_graph_graph'], writes [], may raise *)
+Definition CFDivisor___add__ (self_graph_vertices : list nat) (self_degrees : dictZ) (self_graph_graph : dictD) (set_order : list nat -> list nat) (other_graph_vertices : list nat) (other_degrees : dictZ) : pyres (unit) (dictZ * Z) :=
+  if (negb (set_eqb self_graph_vertices other_graph_vertices)) then
+  PyExn tt
+  else
+  let new_degrees_list := (@nil (nat * Z)) in
+  match fold_left (fun acc_ v_obj => match acc_ with PyExn e_ => PyExn e_ | PyOk new_degrees_list => 
+  let deg1 := (d_get v_obj 0 self_degrees) in
+  let deg2 := (d_get v_obj 0 other_degrees) in
+  let new_degrees_list := new_degrees_list ++ [(v_obj, (deg1 + deg2))] in
+  PyOk new_degrees_list end) (set_order self_graph_vertices) (PyOk new_degrees_list) with PyExn e_ => PyExn e_ | PyOk new_degrees_list =>
+  match CFDivisor___init__ set_order self_graph_vertices self_graph_graph new_degrees_list with PyExn _ => PyExn tt | PyOk new_ => PyOk (new_) end end.
+
+(* chipfiring/CFDivisor.py :: CFDivisor.__sub__   reads ['self_graph_vertices', 'self_degrees', 'self_graph_graph'], writes [], may raise *)
+Definition CFDivisor___sub__ (self_graph_vertices : list nat) (self_degrees : dictZ) (self_graph_graph : dictD) (set_order : list nat -> list nat) (other_graph_vertices : list nat) (other_degrees : dictZ) : pyres (unit) (dictZ * Z) :=
+  if (negb (set_eqb self_graph_vertices other_graph_vertices)) then
+  PyExn tt
+  else
+  let new_degrees_list := (@nil (nat * Z)) in
+  match fold_left (fun acc_ v_obj => match acc_ with PyExn e_ => PyExn e_ | PyOk new_degrees_list => 
+  let deg1 := (d_get v_obj 0 self_degrees) in
+  let deg2 := (d_get v_obj 0 other_degrees) in
+  let new_degrees_list := new_degrees_list ++ [(v_obj, (deg1 - deg2))] in
+  PyOk new_degrees_list end) (set_order self_graph_vertices) (PyOk new_degrees_list) with PyExn e_ => PyExn e_ | PyOk new_degrees_list =>
+  match CFDivisor___init__ set_order self_graph_vertices self_graph_graph new_degrees_list with PyExn _ => PyExn tt | PyOk new_ => PyOk (new_) end end.
+
 (* CFDivisor.firing_move is the class attribute `firing_move = lending_move` *)
 Definition CFDivisor_firing_move := CFDivisor_lending_move.
